@@ -267,10 +267,16 @@ def w_misc(job):
         ("too-many-arguments", "function h(int p) -> int { return 1; }\nexport function c() -> int { return h(1, 2); }", False),
         ("too-few-arguments", "function h(int p, int q) -> int { return 1; }\nexport function c() -> int { return h(1); }", False),
         ("callee-declared-after-caller", "export function c() -> int { return h(1); }\nfunction h(int p) -> int { return 7; }", True),
+        ("exported-overload-then-internal-overload", "export function h(int p) -> int { return 1; }\nfunction h(float p) -> int { return 2; }\nexport function c() -> int { return h(1) * 10 + h(1.5); }", True, 12),
+        ("internal-overload-then-exported-overload", "function h(float p) -> int { return 2; }\nexport function h(int p) -> int { return 1; }\nexport function c() -> int { return h(1) * 10 + h(1.5); }", True, 12),
+        ("internal-exported-internal-overloads", "function h(float p) -> int { return 2; }\nexport function h(int p) -> int { return 1; }\nfunction h(float2 p) -> int { return 3; }\nexport function c() -> int { return h(1) * 100 + h(1.5) * 10 + h(float2(1.0, 2.0)); }", True, 123),
+        ("exported-overload-first-of-three", "export function h(int p) -> int { return 1; }\nfunction h(float p) -> int { return 2; }\nfunction h(float2 p) -> int { return 3; }\nexport function c() -> int { return h(1) * 100 + h(1.5) * 10 + h(float2(1.0, 2.0)); }", True, 123),
+        ("unnamed-parameter-next-to-arg0", "function h(int2, float arg0) -> int { return 1; }\nexport function c() -> int { return h(int2(1, 2), 1.5); }", True, 1),
+        ("unnamed-parameter-next-to-arg0-not-viable", "function h(int2, float arg0) -> int { return 1; }\nexport function c() -> int { return h(1.0, float3(1.0, 2.0, 3.0)); }", False),
         ("overloads-declared-around-caller", "function h(int p) -> int { return 1; }\nexport function c() -> int { return h(1.5); }\nfunction h(float p) -> int { return 2; }", True),
     ]
     n = 0
-    for name, src, accept in cases:
+    for name, src, accept, *rest in cases:
         n += 1
         res = compile_src(src)
         ok = res.ok
@@ -280,7 +286,7 @@ def w_misc(job):
                 v = new_vm(link(res.module)).Invoke("c")
             except BaseException as e:
                 v = f"<<{type(e).__name__}>>"
-            want = 7 if "7" in src else 2
+            want = rest[0] if rest else (7 if "7" in src else 2)
             if v != want:
                 counts[f"C10|misc|{name}|wrong-result"] = 1
                 fails.append({"key": f"C10|misc|{name}|wrong-result", "part": "misc", "source": src, "expected": want, "observed": v})
